@@ -15,6 +15,7 @@ pub mod c11;
 pub mod c12;
 pub mod c13;
 pub mod c17;
+pub mod c17v;
 pub mod c18;
 pub mod c20;
 pub mod extra;
@@ -30,6 +31,7 @@ pub fn registry() -> Vec<&'static macros::Entry> {
     v.extend(c12::registry());
     v.extend(c13::registry());
     v.extend(c17::registry());
+    v.extend(c17v::registry());
     v.extend(c18::registry());
     v.extend(c20::registry());
     v.extend(extra::registry());
